@@ -438,12 +438,12 @@ pub fn main(args: &[String]) {
     } else {
         cases.extend(exhaustive_cases(1));
         cases.extend(exhaustive_cases(2));
-        let (n3, nr) = match (thorough, heavy) {
+        let (n3, nr) = if tier == "feat" { (120, 120) } else { match (thorough, heavy) {
             (false, false) => (1500, 1500),
             (false, true) => (500, 500),
             (true, false) => (30000, 12000),
             (true, true) => (6000, 4000),
-        };
+        } };
         cases.extend(tt_cases(&mut rng, 3, n3));
         for k in 0..nr {
             let n = match k % 10 {
